@@ -148,11 +148,24 @@ pub fn run_from_derive_input<T: darling::FromDeriveInput + ToVal>(src: &str) -> 
     finish(catch(std::panic::AssertUnwindSafe(|| T::from_derive_input(&di))))
 }
 
+/// Marker: hand the attributes over as inner-style attributes (`#![..]`), the way the attribute
+/// list of a module, an impl block or a file carries them.
+pub const INNER: &str = "/*I*/";
+
 pub fn run_from_attributes<T: darling::FromAttributes + ToVal>(src: &str) -> Obs {
-    let di: syn::DeriveInput = match parse_input(src) {
+    let (src, inner) = match src.strip_suffix(INNER) {
+        Some(s) => (s, true),
+        None => (src, false),
+    };
+    let mut di: syn::DeriveInput = match parse_input(src) {
         Ok(d) => d,
         Err(e) => return Obs::NoParse(e.to_string()),
     };
+    if inner {
+        for a in di.attrs.iter_mut() {
+            a.style = syn::AttrStyle::Inner(Default::default());
+        }
+    }
     finish(catch(std::panic::AssertUnwindSafe(|| T::from_attributes(&di.attrs))))
 }
 
